@@ -2,6 +2,9 @@
      kind 1  calls of the handlers that authorize before anything else
      kind 3  calls of Write and ActionSearch (they resolve the store's model first)
      kind 2  ListStores (all pages; name filters) and CreateStore
+     kind 5  probes: an unauthorised caller sends the same request to a store with a model, a
+             store without model and a store id that never existed (model id: default / unknown /
+             malformed): PROP when the answer depends on, or reveals, the target store's state
      kind 4  ListStores again after stores were deleted (their grant tuples stay in the control
              store) and new stores were created; the store list is the live list
    with the grant table the driver obtained from the control store itself.
@@ -77,8 +80,7 @@ let calls_record claims_state client stores grants la calls =
       let has_model = as_bool has_model in
       let hb = bytes_to_coq (base_handler h) in
       let where = Printf.sprintf "%s on %s" h (s_of store) in
-      if not (handler_known_b hb) then v.diff <- (where ^ ": handler is not in the regenerated table") :: v.diff
-      else if not (handler_store_scoped_b hb) then v.diff <- (where ^ ": handler is not store-scoped in the table") :: v.diff
+      if not (handler_store_scoped_b hb) then v.diff <- (where ^ ": handler is not in the pinned list of store-scoped handlers") :: v.diff
       else begin
         let model_first = handler_model_read_before_authz_b hb in
         let passed = cls <> 1 in
@@ -185,9 +187,120 @@ let lists_record claims_state client stores grants la lists create backend =
   v.prop <- List.rev v.prop; v.diff <- List.rev v.diff;
   finish v
 
-let f _id vs =
+(* kind 5: an unauthorised caller probes target stores in different states with the same request *)
+let probe_record claims_state client stores grants la handler meth probes =
+  let (cl, _all, g, _la) = decode_common claims_state client stores grants la in
+  let v = { prop = []; diff = []; known_model = [] } in
+  let h = s_of handler in
+  let hb = bytes_to_coq (base_handler h) in
+  let model_first = handler_model_read_before_authz_b hb in
+  let no_authz = s_of meth = "" in
+  let m = if no_authz then None else match method_of_bytes (cb meth) with
+      | None -> raise (Missing ("API method " ^ s_of meth ^ " is not an apimethod constant"))
+      | Some m -> Some m in
+  List.iter (fun p ->
+    match as_list p with
+    | [variant; answers] ->
+      let ans = List.map (fun a -> match as_list a with
+          | [st; cls; code; touched; headers] -> (s_of st, as_int cls, as_int code, as_bool touched, as_int headers)
+          | _ -> failwith "probe answer") (as_list answers) in
+      let authorised = match m with
+        | None -> false
+        | Some m -> List.exists (fun (st, _, _, _, _) -> spec_allowed g cl m (bytes_to_coq st) []) ans in
+      if not authorised then begin
+        let same = match ans with
+          | [] -> true
+          | (_, c0, k0, _, _) :: r -> List.for_all (fun (_, c, k, _, _) -> c = c0 && k = k0) r in
+        let all_forbidden = List.for_all (fun (_, c, _, _, _) -> c = 1) ans in
+        let all_invalid_request = List.for_all (fun (_, c, k, _, _) -> c = 2 && k = 3) ans in
+        let consulted = List.exists (fun (_, _, _, t, hd) -> t || hd > 0) ans in
+        let ok = if no_authz then same else ((all_forbidden || all_invalid_request) && not consulted) in
+        if not ok then begin
+          let show (st, c, k, t, hd) =
+            Printf.sprintf "%s store -> %s%s%s" st
+              (if c = 1 then "forbidden" else if c = 0 then "OK" else Printf.sprintf "error code %d" k)
+              (if t then " [target store read]" else "") (if hd > 0 then " [model id of the target store in the response headers]" else "") in
+          let txt = Printf.sprintf "unauthorised caller, %s(%s): the answer depends on / reveals the state of the target store before the authorization decision: %s"
+              h (s_of variant) (String.concat "; " (List.map show ans)) in
+          if model_first then v.known_model <- txt :: v.known_model else v.prop <- txt :: v.prop
+        end
+      end
+    | _ -> v.diff <- "malformed probe entry" :: v.diff) (as_list probes);
+  v.prop <- List.rev v.prop; v.diff <- List.rev v.diff; v.known_model <- List.rev v.known_model;
+  finish v
+
+(* Cross-check of extraction: with ORACLE_DUMP=<file> the values the EXTRACTED model computed for
+   every case are appended to that file, before any comparison with the implementation:
+     kind 1/3  per call: is_allow (authorize / write_authorize), spec_allowed / spec_write_allowed,
+               handler_model_read_before_authz_b + 2 * handler_store_scoped_b
+     kind 2/4  per ListStores variant: 0 (denied) or 1, number of ids, checksum of the ids in model
+               order (list_stores / list_stores_sqlite); then CreateStore: is_allow, spec
+     kind 5    the handler's model-first flag; per variant and state: spec_allowed
+   bin/coqreplay_c26.py recomputes the same numbers inside Coq with vm_compute. *)
+let dump_chan = match Sys.getenv_opt "ORACLE_DUMP" with
+  | Some p when p <> "" -> Some (open_out_gen [Open_append; Open_creat] 0o644 p)
+  | _ -> None
+let b2i b = if b then 1 else 0
+let hp = 1000000007
+let hbytes (s : string) : int =
+  let acc = ref 0 in String.iter (fun c -> acc := (!acc * 131 + Char.code c) mod hp) s; !acc
+let hlist (l : string list) : int = List.fold_left (fun acc s -> (acc * 131 + hbytes s + 1) mod hp) 0 l
+
+let dump_case id vs =
+  match dump_chan with
+  | None -> ()
+  | Some ch ->
+    let nums = match vs with
+      | [I k; claims_state; client; stores; grants; la; calls] when k = "1" || k = "3" ->
+        let (cl, _all, g, _la) = decode_common claims_state client stores grants la in
+        int_of_string k :: List.concat_map (fun c -> match as_list c with
+          | [handler; meth; store; lookups; _; _; _; _; _] ->
+            let h = s_of handler and sid = cb store in
+            let hb = bytes_to_coq (base_handler h) in
+            let (a, b) =
+              if h = "Write" then begin
+                let ls = List.map (fun l -> match as_list l with
+                    | [k; m] -> (match as_int k with 0 -> LTypeNotFound | 1 -> LNoRelation | _ -> LModule (cb m))
+                    | _ -> failwith "lookup entry") (as_list lookups) in
+                (is_allow (write_authorize g cl sid ls), spec_write_allowed g cl sid ls)
+              end else if s_of meth = "" then (true, true)
+              else match method_of_bytes (cb meth) with
+                | None -> (false, false)
+                | Some m -> (is_allow (authorize g cl m sid []), spec_allowed g cl m sid []) in
+            [b2i a; b2i b; b2i (handler_model_read_before_authz_b hb) + 2 * b2i (handler_store_scoped_b hb)]
+          | _ -> []) (as_list calls)
+      | [I k; claims_state; client; stores; grants; la; lists; _create; backend] when k = "2" || k = "4" ->
+        let (cl, all, g, la) = decode_common claims_state client stores grants la in
+        let per = List.concat_map (fun l -> match as_list l with
+          | [name; _; _; _] ->
+            let model = if s_of backend = "sqlite" then list_stores_sqlite g la cl (cb name) all
+              else list_stores g la cl (cb name) all in
+            (match model with
+             | LSDenied -> [0]
+             | LSStores ids -> let ss = List.map coq_to_bytes ids in [1; List.length ss; hlist ss])
+          | _ -> []) (as_list lists) in
+        let create_m = match method_of_bytes (bytes_to_coq "CreateStore") with Some m -> m | None -> raise (Missing "CreateStore") in
+        int_of_string k :: per @ [b2i (is_allow (authorize_create_store g cl)); b2i (spec_system_allowed g cl create_m)]
+      | [I "5"; claims_state; client; stores; grants; la; handler; meth; probes] ->
+        let (cl, _all, g, _la) = decode_common claims_state client stores grants la in
+        let hb = bytes_to_coq (base_handler (s_of handler)) in
+        let m = if s_of meth = "" then None else method_of_bytes (cb meth) in
+        5 :: b2i (handler_model_read_before_authz_b hb) :: List.concat_map (fun p -> match as_list p with
+          | [_; answers] -> List.map (fun a -> match as_list a with
+              | st :: _ -> (match m with Some m -> b2i (spec_allowed g cl m (cb st) []) | None -> 2)
+              | _ -> 9) (as_list answers)
+          | _ -> []) (as_list probes)
+      | _ -> [] in
+    if nums <> [] then begin
+      output_string ch (id ^ " " ^ String.concat " " (List.map string_of_int nums) ^ "\n"); flush ch
+    end
+
+let f id vs =
+  (try dump_case id vs with _ -> ());
   try
     match vs with
+    | [I "5"; claims_state; client; stores; grants; la; handler; meth; probes] ->
+      probe_record claims_state client stores grants la handler meth probes
     | [I k; claims_state; client; stores; grants; la; calls] when k = "1" || k = "3" ->
       calls_record claims_state client stores grants la calls
     | [I k; claims_state; client; stores; grants; la; lists; create; backend] when k = "2" || k = "4" ->
